@@ -26,10 +26,11 @@ class AstToSqlAlchemyOrmVisitor(common._CommonVisitors, visitor.NodeVisitor):
 
     def visit_Identifier(self, node: ast.Identifier) -> ColumnClause:
         ":meta private:"
-        try:
-            return getattr(self.root_model, node.name)
-        except AttributeError:
+        # Only mapped attributes (columns, relationships, ...) are fields. Other
+        # attributes of the model class (`metadata`, `__table__`, ...) are not:
+        if node.name not in inspect(self.root_model).all_orm_descriptors:
             raise ex.InvalidFieldException(node.name)
+        return getattr(self.root_model, node.name)
 
     def visit_Attribute(self, node: ast.Attribute) -> ColumnClause:
         ":meta private:"
@@ -44,10 +45,9 @@ class AstToSqlAlchemyOrmVisitor(common._CommonVisitors, visitor.NodeVisitor):
 
         # We'd like to reference the column on the related class:
         owner_cls = prop_inspect.entity.class_
-        try:
-            return getattr(owner_cls, node.attr)
-        except AttributeError:
+        if node.attr not in inspect(owner_cls).all_orm_descriptors:
             raise ex.InvalidFieldException(node.attr)
+        return getattr(owner_cls, node.attr)
 
     def visit_Compare(self, node: ast.Compare) -> BinaryExpression:
         ":meta private:"
